@@ -433,7 +433,9 @@ def _ref_pre(ka, s, pound, kb, r):
     if os.environ.get("VP_POUND") == "tie" and pound != (ka == 0):
         return False       # quick tier: '#' appended exactly where the '#' rule wants it
     if kb == 3 or kb == 5:
-        if not (len(r) == 1 and R.over(r, "ab")):
+        # the column referenced from b: a, b (mutual / self reference) or HED (b then holds a legal reference of
+        # its own, so that a reference TO b is a nested reference whatever the order of the columns)
+        if not ((len(r) == 1 and R.over(r, "ab")) or r == "HED"):
             return False
     doc = _two(ka, s, pound, kb, r if (kb == 3 or kb == 5) else "a")
     if _active("C08-ref-name-outside-pattern") and R.known("C08-ref-name-outside-pattern", _kf_ref_not_a_name(doc)):
